@@ -6,6 +6,8 @@
       confirms that the patch applies to /repo's HEAD, that with the change the crate builds (with and without the verif
       feature), the 93 unit tests pass and the demo FAILS, and that without the change the demo PASSES.
       On success stores /verif/seeded/<name>/{patch.diff, demo.rs, meta.json}.
+  tools/seeded.py runall [--tier quick]
+      Runs every seeded defect against the check of its own property; exit 1 and a MISSED list if one goes undetected.
   tools/seeded.py run <name> [CHECK ...] [--tier quick]
       Applies /verif/seeded/<name>/patch.diff to /repo (git apply), runs the given checks (default: the property's own),
       reverts /repo (git checkout -- .) and records which checks reported a violation in meta.json.
@@ -92,6 +94,19 @@ if __name__ == "__main__":
         feats = a[a.index("--features") + 1] if "--features" in a else ""
         needs = a[a.index("--needs") + 1] if "--needs" in a else ""
         confirm(a[1], a[2], a[3], feats, needs)
+    elif a[0] == "runall":
+        tier = a[a.index("--tier") + 1] if "--tier" in a else "quick"
+        missed = []
+        for name in sorted(os.listdir(os.path.join(V, "seeded"))):
+            if not os.path.exists(os.path.join(V, "seeded", name, "meta.json")):
+                continue
+            run(name, [], tier)
+            meta = json.load(open(os.path.join(V, "seeded", name, "meta.json")))
+            own = meta["detected_by"].get("%s/%s" % (meta["property"], tier), {})
+            if own.get("rc") != 1:
+                missed.append(name)
+        print("MISSED:", missed)
+        sys.exit(1 if missed else 0)
     elif a[0] == "run":
         tier = a[a.index("--tier") + 1] if "--tier" in a else "quick"
         checks = [x for x in a[2:] if x.startswith("C")]
